@@ -48,6 +48,8 @@ def c05_obligations(chk):
         def new_row_summary(it, args, kwargs, holder=holder):
             row = sym_arr("new_row", [1, NX])
             holder["row"] = row
+            cur = holder["o"].attrs.get("_scrn")
+            holder["at_call"] = cur.frozen() if isinstance(cur, Arr) else None      # the screen the new row is computed from
             return row
 
         def run(it, cls=cls, holder=holder):
@@ -69,6 +71,11 @@ def c05_obligations(chk):
                 return goals
             goals.append(("invariant: _scrn.shape=(stencil_length, nx_size)", z3.And(zi(new.shape[0]) == SL, zi(new.shape[1]) == NX)))
             inb = z3.And(r >= 0, r < SL, c >= 0, c < NX)
+            at_call = holder.get("at_call")
+            ok_call = isinstance(at_call, Arr) and at_call.ndim == 2
+            goals.append(("the new row is computed from the screen BEFORE the shift (same shape)", z3.BoolVal(bool(ok_call)) if not ok_call else z3.And(zi(at_call.shape[0]) == SL, zi(at_call.shape[1]) == NX)))
+            if ok_call:
+                goals.append(("the new row is computed from the screen BEFORE the shift (same contents)", z3.Implies(inb, zr(at_call.get([r, c])) == zr(scr.get([r, c])))))
             goals.append(("_scrn'[0,:]=new row", z3.Implies(z3.And(inb, r == 0), zr(new.get([r, c])) == zr(row.get([0, c])))))
             goals.append(("_scrn'[r,:]=_scrn[r-1,:] (shifted down by exactly one row)", z3.Implies(z3.And(inb, r >= 1), zr(new.get([r, c])) == zr(scr.get([r - 1, c])))))
             ok = isinstance(out, Arr) and out.ndim == 2
